@@ -1168,6 +1168,7 @@ func run(c *lib.Ctx) {
 	for _, s := range sets {
 		m.compareOrders(s)
 	}
+	m.concurrentDirect()
 
 	c.Exhaustive(false)
 	c.Assume("designated FallbackSite sites cannot be produced from a Casketfile with the standard directives; only the built-in catch-all spellings ('', 0.0.0.0, [::]) are exercised")
